@@ -78,17 +78,25 @@ func Verify(stump Stump, delHashes []Hash, proof Proof) ([]int, error) {
 			"hashes for those targets", len(proof.Targets), len(delHashes))
 	}
 
-	_, rootCandidates, err := calculateHashes(stump.NumLeaves, delHashes, proof)
+	_, rootCandidates, rootRows, err := calculateHashesAndRootRows(stump.NumLeaves, delHashes, proof)
 	if err != nil {
 		return nil, err
 	}
+	// A root candidate only matches the root of the tree that it was
+	// calculated in.
 	rootIndexes := make([]int, 0, len(rootCandidates))
-	for i := range stump.Roots {
-		if len(rootCandidates) > len(rootIndexes) &&
-			stump.Roots[len(stump.Roots)-(i+1)] == rootCandidates[len(rootIndexes)] {
-
-			rootIndexes = append(rootIndexes, len(stump.Roots)-(i+1))
+	rootIdx := len(stump.Roots) - 1
+	for row := uint8(0); row <= TreeRows(stump.NumLeaves) && rootIdx >= 0; row++ {
+		if !rootExistsOnRow(stump.NumLeaves, row) {
+			continue
 		}
+		if len(rootCandidates) > len(rootIndexes) &&
+			rootRows[len(rootIndexes)] == row &&
+			stump.Roots[rootIdx] == rootCandidates[len(rootIndexes)] {
+
+			rootIndexes = append(rootIndexes, rootIdx)
+		}
+		rootIdx--
 	}
 
 	if len(rootCandidates) != len(rootIndexes) {
